@@ -306,7 +306,8 @@ def run(ctx):
                     kinds += renames + ["%s+%s" % (a, b) for a in renames for b in ("in-function", "in-function-if", "in-class-class")]
                 if ctx.quick:
                     if r["lang"] in ("ts", "js"):
-                        kinds = ["as-is"] + rng.sample(ts_scopes, 2) + ["rename-suffix", "rename-fresh+" + rng.choice(ts_scopes), "rename-suffix+" + rng.choice(ts_scopes)]
+                        # (the documentation has few TS/JS examples: every scope, alone and with fresh names, also in the quick tier)
+                        kinds = ["as-is"] + ts_scopes + ["rename-suffix"] + ["rename-fresh+" + sc for sc in ts_scopes] + ["rename-suffix+" + rng.choice(ts_scopes)]
                     else:
                         kinds = ["as-is", "repeat2", rng.choice(["in-function-class", "in-function-if", "in-function-try"]), "rename-" + rng.choice(["suffix", "fresh"]),
                                  "rename-%s+%s" % (rng.choice(["suffix", "fresh"]), rng.choice(["in-function", "in-function-if"]))] + \
